@@ -164,3 +164,69 @@ func ruleREFMODEL(c *Ctx) {
 		c.add(rule, "count:", token.NoPos, CountDropped, true, "only %d Reference literals found in package compiler", n)
 	}
 }
+
+// AGREE(bison-namespace): the Bison export prints terminals by their ID (`%token {{.ID}}`,
+// references through Symbol.ID) and nonterminals by their name, so a nonterminal whose *name*
+// is a token's *ID* is one word for two symbols and the file does not describe the grammar.
+// When the option is on, resolver.addNonterms must look the nonterminal's name up among the
+// registered IDs (c.ids[name]) and reach a diagnostic on a hit.
+func ruleBISONNS(c *Ctx) {
+	const rule = "AGREE(bison-namespace)"
+	key := "compiler.resolver.addNonterms:name-vs-token-id"
+	f := c.SSAFunc("compiler", "(*resolver).addNonterms")
+	if f == nil {
+		c.Lost(rule, key, "function not found")
+		return
+	}
+	// template side: both namespaces are in use
+	usesID, usesName := false, false
+	if files, err := c.templates(); err == nil && files["bison.go.tmpl"] != nil {
+		bf := files["bison.go.tmpl"]
+		for _, tn := range sortedTreeKeys(bf.Trees) {
+			src := bf.Trees[tn].Root.String()
+			if strings.Contains(src, "%token {{.ID}}") {
+				usesID = true
+			}
+			if strings.Contains(src, ".Nonterm.Name") {
+				usesName = true
+			}
+		}
+	}
+	if !usesID || !usesName {
+		c.Lost(rule, "gen/templates/bison.go.tmpl:namespaces", "the template no longer prints tokens by .ID and left-hand sides by .Nonterm.Name (ID=%v name=%v): restate the rule", usesID, usesName)
+		return
+	}
+	for _, b := range f.Blocks {
+		for _, ins := range b.Instrs {
+			lk, ok := ins.(*ssa.Lookup)
+			if !ok || !lk.CommaOk || !strings.HasSuffix(vpath(lk.X), ".ids") || !strings.HasSuffix(vpath(lk.Index), ".Name") {
+				continue
+			}
+			// a hit reaches Errorf
+			for _, ref := range *lk.Referrers() {
+				ex, ok := ref.(*ssa.Extract)
+				if !ok || ex.Index != 1 {
+					continue
+				}
+				for _, b2 := range f.Blocks {
+					for _, in2 := range b2.Instrs {
+						call, ok := in2.(*ssa.Call)
+						if !ok {
+							continue
+						}
+						if g := call.Call.StaticCallee(); g == nil || g.Name() != "Errorf" {
+							continue
+						}
+						for _, g := range flattenConds(governing(b2)) {
+							if g.V == ssa.Value(ex) && g.Pol {
+								c.Ok(rule, key, lk.Pos(), "a nonterminal whose name is a registered token ID is reported (the export would use one word for two symbols)")
+								return
+							}
+						}
+					}
+				}
+			}
+		}
+	}
+	c.Bad(rule, key, f.Pos(), "no lookup of the nonterminal's name among the registered token IDs leads to a diagnostic: with writeBison a nonterminal FOO_BAR and a token foo_bar (ID FOO_BAR) are printed as the same word")
+}
